@@ -178,8 +178,14 @@ def rand_writer_ops(rng, sep=";", kv=":"):
     n = rng.choice([0, 1, 1, 2, 3, 4])
     ops = []
     for _ in range(n):
-        kind = rng.choice(["s", "s", "s", "l", "u", "f", "c"])
-        ops.append(kind + kv + hx(rand_out_text(rng)))
+        kind = rng.choice(["s", "s", "s", "l", "u", "f", "c", "t", "e"])
+        if kind == "e":
+            # write_list_element(name, description, longest_name): any column width, also one SMALLER than the name (bytes or chars)
+            name = b"".join(rng.choice([b"a", b"b", b"-", "\u00e9".encode(), "\u0441".encode(), "\u20ac".encode()]) for _ in range(rng.randrange(0, 6)))
+            hxe = lambda b: hx(b) if b else ""
+            ops.append("e" + kv + hxe(name) + "." + hxe(rand_out_text(rng, 4)) + ".%d" % rng.choice([0, 1, 2, 3, len(name.decode()), len(name), len(name) + 1, 9]))
+        else:
+            ops.append(kind + kv + hx(rand_out_text(rng)))
     return sep.join(ops) if ops else ("-" if sep == ";" else "")
 
 KEYS = {"left": b"\x1b[D", "right": b"\x1b[C", "up": b"\x1b[A", "down": b"\x1b[B", "bs": b"\x08", "tab": b"\t"}
